@@ -57,54 +57,63 @@ op_shl(l, r) ==
 (* math.h:203 operator& *)
 op_and(l, r) == SAnd(l, r)
 
-(* math.h:210 fixed_additioni *)
+(* math.h:210 fixed_additioni (after "fix: addition and subtraction ..."): the sum wraps in unsigned arithmetic *)
 fixed_additioni(lh, rh) ==
-   LET result == SAdd(lh, rh) IN
+   LET result == WAdd(lh, rh) IN
    IF ZIsPoison(result) THEN ZPoison
    ELSE IF Z0 \preceq result
         THEN (IF (lh \prec Z0) /\ (rh \prec Z0) THEN op_neg(quiet_NaN_result) ELSE result)
-        ELSE (IF (Z0 \prec lh) /\ (Z0 \prec rh) THEN quiet_NaN_result ELSE result)
+        ELSE (IF (Z0 \prec lh) /\ (Z0 \prec rh) THEN quiet_NaN_result
+              ELSE IF result = IntMin THEN op_neg(quiet_NaN_result) ELSE result)
 
-(* math.h:302 fixed_substracti *)
+(* math.h:306 fixed_substracti *)
 fixed_substracti(lh, rh) ==
-   LET result == SSub(lh, rh) IN
+   LET result == WSub(lh, rh) IN
    IF ZIsPoison(result) THEN ZPoison
    ELSE IF Z0 \preceq result
         THEN (IF (lh \prec Z0) /\ (Z0 \prec rh) THEN op_neg(quiet_NaN_result) ELSE result)
-        ELSE (IF (Z0 \prec lh) /\ (rh \prec Z0) THEN quiet_NaN_result ELSE result)
+        ELSE (IF (Z0 \prec lh) /\ (rh \prec Z0) THEN quiet_NaN_result
+              ELSE IF result = IntMin THEN op_neg(quiet_NaN_result) ELSE result)
 
 (* math.h:379 check_multiply_result -- sic: "||" *)
 MulGuard == P(W - 1) -- P(F)                              \* 0x7fffffffffff0000
 check_multiply_result(r) == (r \prec MulGuard) \/ (ZNeg(MulGuard) \prec r)
 
-(* math.h:386 fixed_multiplyi *)
+(* math.h:394 fixed_multiplyi (after "fix: multiplication ..."): __builtin_mul_overflow on the raw words *)
 fixed_multiplyi(lh, rh) ==
-   LET result == SMul(lh, rh) IN
-   IF ZIsPoison(result) THEN ZPoison
-   ELSE IF check_multiply_result(result) THEN SShr(result, F) ELSE quiet_NaN_result
+   IF ZIsPoison(lh) \/ ZIsPoison(rh) THEN ZPoison
+   ELSE LET result == lh ** rh IN
+        IF FitsW(result) THEN SShr(result, F) ELSE quiet_NaN_result
 
 (* common.h:33/43 promote_type_to_signed: unsigned n-bit -> signed 2n-bit, but 64 -> int64_t *)
 promote_type_to_signed(t, n) == IF t.signed THEN n ELSE IF t.bits >= W THEN Wrap(n) ELSE n
 
-(* math.h:419 fixed_multiply_scalar *)
+(* math.h:427 fixed_multiply_scalar: the scalar keeps its own type; result must be a finite value *)
 fixed_multiply_scalar(lh, t, n) ==
-   LET result == SMul(lh, promote_type_to_signed(t, n)) IN
-   IF ZIsPoison(result) THEN ZPoison
-   ELSE IF check_multiply_result(result) THEN result ELSE quiet_NaN_result
+   IF ZIsPoison(lh) \/ ZIsPoison(n) THEN ZPoison
+   ELSE LET result == lh ** n IN
+        IF FitsW(result) /\ (Lowestv \preceq result) /\ (result \preceq Maxv) THEN result ELSE quiet_NaN_result
 
-(* math.h:480 fixed_divisionf *)
+(* math.h:489 fixed_divisionf (after "fix: division ..."): 128-bit dividend, range check *)
 fixed_divisionf(x, y) ==
-   IF y # Z0 THEN SDiv(op_shl(x, F), y) ELSE quiet_NaN_result
+   IF ZIsPoison(x) \/ ZIsPoison(y) THEN ZPoison
+   ELSE IF y # Z0
+        THEN LET result == ZTDiv(x ** P(F), y) IN
+             IF (Lowestv \preceq result) /\ (result \preceq Maxv) THEN result ELSE quiet_NaN_result
+        ELSE quiet_NaN_result
 
-(* math.h:517 fixed_division_by_scalar *)
+(* math.h:527 fixed_division_by_scalar *)
 fixed_division_by_scalar(lh, t, n) ==
-   IF n # Z0 THEN SDiv(lh, promote_type_to_signed(t, n)) ELSE quiet_NaN_result
+   IF n # Z0
+   THEN IF ~t.signed /\ t.bits >= W /\ (IntMax \prec n) THEN Z0
+        ELSE SDiv(lh, promote_type_to_signed(t, n))
+   ELSE quiet_NaN_result
 
 (* math.h:564 ceil *)
 ceil_(v) ==
    LET result == SAnd(SAdd(v, FMask), NotFMask) IN
    IF ZIsPoison(result) THEN ZPoison
-   ELSE IF v \prec result THEN result ELSE quiet_NaN_result
+   ELSE IF v \preceq result THEN result ELSE quiet_NaN_result
 (* math.h:574 floor *)
 floor_(v) == SAnd(v, NotFMask)
 
@@ -116,19 +125,18 @@ highest_pwr4_clz(value) ==
         IN SShl(Z1, c1 - 1)
    ELSE Z0
 
-(* math.h:603 sqrt_abacus *)
+(* math.h:613 sqrt_abacus (after "fix: sqrt_abacus ..."): the loop runs on unsigned W-bit words *)
 RECURSIVE abacus_loop(_, _, _)
 abacus_loop(value, result, pwr4) ==
    IF ZIsPoison(value) \/ ZIsPoison(result) \/ ZIsPoison(pwr4) THEN ZPoison
    ELSE IF pwr4 = Z0 THEN result
-   ELSE LET rp == SAdd(result, pwr4) IN
-        IF ZIsPoison(rp) THEN ZPoison
-        ELSE IF rp \preceq value
-             THEN abacus_loop(SSub(value, rp), SShr(SAdd(result, SShl(pwr4, 1)), 1), SShr(pwr4, 2))
-             ELSE abacus_loop(value, SShr(result, 1), SShr(pwr4, 2))
+   ELSE LET rp == UAdd(result, pwr4) IN
+        IF rp \preceq value
+        THEN abacus_loop(WrapU(value -- rp), UShr(UAdd(result, UShl(pwr4, 1)), 1), UShr(pwr4, 2))
+        ELSE abacus_loop(value, UShr(result, 1), UShr(pwr4, 2))
 sqrt_abacus(v) ==
-   IF (v \prec Z0) \/ (P(W - F) \preceq v) THEN quiet_NaN_result
-   ELSE LET value == SShl(v, F) IN
-        IF ZIsPoison(value) THEN ZPoison
-        ELSE abacus_loop(value, Z0, highest_pwr4_clz(ToU(value)))
+   IF ZIsPoison(v) THEN ZPoison
+   ELSE IF (v \prec Z0) \/ (P(W - F) \preceq v) THEN quiet_NaN_result
+   ELSE LET uvalue == UShl(ToU(v), F) IN
+        ToS(abacus_loop(uvalue, Z0, ToU(highest_pwr4_clz(uvalue))))
 =============================================================================
